@@ -111,6 +111,44 @@ type Runner struct {
 	tainted    bool
 	buf        []map[string]interface{}
 	quietUntil time.Time
+	roster     map[string]chan struct{}
+}
+
+// rosterSeen / waitRoster: the simulated agent reports TASK_RUNNING only once the core has written
+// the task to its roster (in a real cluster starting an executor takes far longer than that).
+func (r *Runner) rosterSeen(id string) {
+	r.mu.Lock()
+	if r.roster == nil {
+		r.roster = map[string]chan struct{}{}
+	}
+	ch, ok := r.roster[id]
+	if !ok {
+		ch = make(chan struct{})
+		r.roster[id] = ch
+	}
+	select {
+	case <-ch:
+	default:
+		close(ch)
+	}
+	r.mu.Unlock()
+}
+
+func (r *Runner) waitRoster(id string) {
+	r.mu.Lock()
+	if r.roster == nil {
+		r.roster = map[string]chan struct{}{}
+	}
+	ch, ok := r.roster[id]
+	if !ok {
+		ch = make(chan struct{})
+		r.roster[id] = ch
+	}
+	r.mu.Unlock()
+	select {
+	case <-ch:
+	case <-time.After(3 * time.Second):
+	}
 }
 
 // emit records an event of the current scenario, mapping real ids to aliases.
@@ -133,6 +171,20 @@ func (r *Runner) emit(ev string, kv ...interface{}) {
 	}
 	if v, ok := m["task"].(string); ok && v != "" {
 		m["task"] = r.taskAliasLocked(v)
+	}
+	if ev == "MAccept" {
+		if l, ok := m["tasks"].([]map[string]interface{}); ok {
+			for _, x := range l {
+				if v, ok := x["task"].(string); ok {
+					x["task"] = r.taskAliasLocked(v)
+				}
+				if v, ok := x["env"].(string); ok {
+					if a, ok := r.envAlias[v]; ok {
+						x["env"] = a
+					}
+				}
+			}
+		}
 	}
 	r.mu.Unlock()
 	m["scn"] = scn
@@ -239,6 +291,13 @@ func NewRunner(work string, rec *vtrace.Recorder, batch []*Scenario, self string
 		MetricsPort: FreePort(), Extra: cfg.Flags}
 	r.Sched = vgate.New()
 	r.Sched.OnPoint = func(point string, kv []interface{}) {
+		if point == "task.roster.appended" {
+			for i := 0; i+1 < len(kv); i += 2 {
+				if fmt.Sprint(kv[i]) == "task" {
+					r.rosterSeen(fmt.Sprint(kv[i+1]))
+				}
+			}
+		}
 		if point == "envman.create.snapshot" {
 			// learn the alias of an environment being created from the user variable the driver passed
 			id, alias := "", ""
@@ -269,6 +328,7 @@ func NewRunner(work string, rec *vtrace.Recorder, batch []*Scenario, self string
 		}
 	} else {
 		verifhook.SetHandler(r.hookHandler)
+		r.Master.LaunchGate = r.waitRoster
 		the.VerifSetWriterFactory(func(t topic.Topic) event.Writer { return &captureWriter{r: r, t: t} })
 		SetPluginHandler(r.pluginHandler)
 		if err := RunCoreInProcess(r.Opts, quiet); err != nil {
@@ -280,6 +340,15 @@ func NewRunner(work string, rec *vtrace.Recorder, batch []*Scenario, self string
 		return nil, err
 	}
 	r.Client = cl
+	// the control port may answer before the scheduler has subscribed to the master
+	deadline := time.Now().Add(15 * time.Second)
+	for r.Master.SubscribeCount() < 1 && time.Now().Before(deadline) {
+		time.Sleep(5 * time.Millisecond)
+	}
+	if r.Master.SubscribeCount() < 1 {
+		return nil, fmt.Errorf("core did not subscribe to the simulated master")
+	}
+	r.settle(30 * time.Millisecond)
 	return r, nil
 }
 
@@ -294,6 +363,8 @@ func (r *Runner) StartChild() error {
 		return err
 	}
 	r.Client = cl
+	n0 := r.Master.SubscribeCount()
+	_ = n0
 	return nil
 }
 
@@ -822,6 +893,9 @@ func (r *Runner) Run(s *Scenario) {
 	var model interface{}
 	if len(s.Model) > 0 {
 		_ = json.Unmarshal(s.Model, &model)
+	}
+	if model == nil {
+		model = map[string]interface{}{}
 	}
 	r.emit("Reset", "family", s.Family, "model", model)
 	for i := range s.Steps {
